@@ -19,4 +19,31 @@ CHECKS = {
         "assumptions": COMMON_ASSUMPTIONS + ["flow rules only on the probed resource; global configuration is the default (20x500 ms ring, 2x500 ms default metric)"],
     },
 }
+CHECKS["C01"]["replay"] = "case"
+
+CHECKS["C02"] = {
+    "package": "seq", "bin": "c02", "flavor": "seq",
+    "shards": {"quick": 4, "thorough": 16},
+    "level": "exploration",
+    "technique": "runtime monitoring: event-list oracle (sum/rate/avg/min recomputed from recorded events) over generated ring/window geometries and timestamp histories; constructor predicate checked on a geometry grid",
+    "rule": "cases = (ring n in 1..20 x bucket length in {1,2,3,7,50,100,250,500,1000}) x a servable read window x a non-decreasing event history (gaps from a boundary grid incl. exact multiples of the bucket and of the whole interval and idle gaps of several intervals) with interleaved reads at and after the last write; every 4th case drives a ResourceNode built under a configured geometry through WriteStat/ReadStat under the virtual clock; plus a grid of ~37k (ring, window) geometries for the accept/refuse predicate. Non-trivial iff some read returned a non-zero in-window sum while older (expired) events existed; distinct = distinct (ring size class, bucket length, window/ring ratio, window bucket count, wrapped?, idle-expired?, edge-read classes) resp. (node geometry, generated window)",
+    "level_text": "Each read API (count_with_time, sum/qps_with_time, ReadStat sum/qps/qps_previous/avg_rt/min_rt on windows, resource nodes and generated read stats) is compared with values recomputed from the recorded events for hundreds of thousands of (geometry, write time, read time) triples incl. wrap-around and full expiry; exploration.",
+    "level_note": "Raw ring reads exactly on a bucket edge may also return the physical value that still contains the bucket of exactly one interval ago (statement-compatible either way, see DESIGN §5 C02); qps_previous is checked only while no in-range bucket was recycled by a later write. LeapArray::new(n, 0) is outside the quantifier.",
+    "design_ref": "DESIGN.md §5 C02",
+    "assumptions": COMMON_ASSUMPTIONS + ["types reached through the verif_export re-exports are the ones the rules use"],
+}
+
+CHECKS["C03"] = {
+    "package": "seq", "bin": "c03", "flavor": "seq", "replay": "case",
+    "shards": {"quick": 4, "thorough": 16},
+    "level": "exploration",
+    "technique": "runtime monitoring: executable state-machine model compared after every operation (decision, breaker state, listener log) over exhaustively enumerated short sequences and generated long ones under a virtual clock",
+    "rule": "cases = (a) every sequence of depth 6 (quick) / 7 (thorough) over the alphabet {enter, complete oldest/newest ok/error, advance 6 ms / half window / window / retry timeout} for 6 fixed single-breaker rule sets covering the 3 strategies (sequences that complete a non-existent entry are dropped as duplicates of shorter ones), (b) generated sequences of length 8..80 over 1-2 breakers per resource (min_request_amount 0..4, thresholds on/around the boundary, 1..5 buckets, retry shorter/equal/longer than the window), optionally with a flow rule so that a probe can be rejected by another rule. Non-trivial iff the sequence contains a full cycle Closed->Open->HalfOpen->(Closed|Open); distinct = distinct (strategy, min amount, bucket count, retry-vs-window class, #breakers, flow rule?, #transition kinds seen, stale completion in Half-Open?, probe rollback?, rejection while Open?)",
+    "level_text": "After every operation the admission decision, current_state() of every breaker and the ordered StateChangeListener log (kind + previous state, per rule) are compared with an independent model of the documented machine; bounded-exhaustive for short sequences, sampled for long ones.",
+    "level_note": "The model takes 'that probe phase's outcome' to be the first completion observed while Half-Open (the probe's or a stale one); ErrorCount thresholds are integers. Snapshot values passed to listeners are not checked.",
+    "design_ref": "DESIGN.md §5 C03",
+    "exhaustive_key": None,
+    "assumptions": COMMON_ASSUMPTIONS + ["one global recording listener registered for the process; breakers of a resource are consulted in get_breakers_of_resource order"],
+}
+
 NOT_APPLICABLE = {}
